@@ -37,6 +37,32 @@ Theorem C12_composition : forall nocursor ops l,
 Proof. exact client_composition. Qed.
 Print Assumptions C12_composition.
 
+(** With a cursor shape drawn into the screen (pseudocursor, no --nocursor) - **partial**: for ANY
+    accepted history, cursor-shape updates of any size, mask and hot spot included, wherever the
+    pointer is, the screen stays a well-formed image of exactly the reference size (drawing the
+    cursor never resizes, truncates or mis-shapes the screen).  Missing for the full statement: which
+    pixels the masked paste changes (campaign). *)
+From VD Require Import Proofs.CursorSizeP.
+Theorem C12_size_with_cursor_partial : forall nocursor ops l,
+  Forall lop_geom ops -> lrun (lib0 nocursor) ops = Some l ->
+  wf_opt (screen l) /\ size_opt (screen l) = fold_left ref_size (sops_of DEFAULT_IMAGE_MODE ops) None.
+Proof. exact client_size_with_cursor. Qed.
+Print Assumptions C12_size_with_cursor_partial.
+
+Example C12_cursor_history_nonvacuous :
+  let px (r g b : Z) := [r; g; b; 0] in
+  let ops := [ LUpdate 1 1 1 1 (px 10 20 30);
+               LCursor 1 1 2 2 (px 9 9 9 ++ px 8 8 8 ++ px 7 7 7 ++ px 6 6 6) [192; 64];
+               LUpdate 0 0 3 1 (px 1 1 1 ++ px 2 2 2 ++ px 3 3 3);
+               LResize 2 2 ] in
+  Forall lop_geom ops /\
+  exists l, lrun (lib0 false) ops = Some l /\ cur l <> None /\ size_opt (screen l) = Some (2, 2).
+Proof.
+  cbv zeta. split.
+  - repeat constructor; cbn; lia.
+  - eexists. split; [vm_compute; reflexivity|]. split; [discriminate|vm_compute; reflexivity].
+Qed.
+
 (** One update: inside the rectangle the new data, everywhere else exactly the old screen (black where
     there was none); the canvas afterwards contains both the old canvas and the rectangle. *)
 Theorem C12_update_outside_unchanged : forall scr x y u,
